@@ -91,6 +91,8 @@ def gen_source(rnd, size_class, allow_empty):
             npos = rnd.choice([99, 100, 101])
         if rnd.random() < 0.3:
             nneg = rnd.choice([99, 100, 101])
+    elif size_class == "huge":
+        npos, nneg = rnd.randint(1000, 2500), rnd.randint(1000, 2500)
     else:
         npos, nneg = rnd.randint(100, 300), rnd.randint(100, 300)
     if allow_empty and rnd.random() < 0.25:
@@ -114,6 +116,11 @@ def gen_source(rnd, size_class, allow_empty):
     if spec["dtype"] == "int64":
         spec["pos"] = [int(v) for v in spec["pos"]]
         spec["neg"] = [int(v) for v in spec["neg"]]
+    elif rnd.random() < 0.06:
+        # single-precision scores (values chosen exactly representable so that the scenario round-trips)
+        spec["dtype"] = "float32"
+        spec["pos"] = [float(np.float32(v)) for v in spec["pos"]]
+        spec["neg"] = [float(np.float32(v)) for v in spec["neg"]]
     r = rnd.random()
     if r < 0.45:
         mult = rnd.choice([0.2, 1, 3, 50])
@@ -152,7 +159,7 @@ def gen_fault(rnd, n_draw_guess=6):
 
 
 def generate(rnd, tier):
-    size_class = rnd.choices(["tiny", "small", "switch", "large"], weights=[30, 40, 15, 15])[0]
+    size_class = rnd.choices(["tiny", "small", "switch", "large", "huge"], weights=[30, 40, 15, 14, 1])[0]
     n_obj = 1 if rnd.random() < 0.75 else 2
     objects = []
     # the quantifier allows empty classes for replacement only: decide per object
@@ -165,7 +172,7 @@ def generate(rnd, tier):
     enabled = [k for k in DRAW_FAULTS if rnd.random() < 0.5] or [rnd.choice(DRAW_FAULTS)]
     ops = []
     n_ops = rnd.randint(2, 10)
-    big = size_class in ("switch", "large")
+    big = size_class in ("switch", "large", "huge")
     for _ in range(n_ops):
         r = rnd.random()
         oi = rnd.randrange(n_obj)
@@ -181,7 +188,7 @@ def generate(rnd, tier):
         cfg = gen_cfg(rnd, method)
         if objects[oi]["replacement_only"]:
             cfg["smoothing"] = False
-        op = {"op": "sample", "obj": oi, "cfg": cfg, "repeat": rnd.randint(1, 6 if big else 30), "faults": []}
+        op = {"op": "sample", "obj": oi, "cfg": cfg, "repeat": rnd.randint(1, 2 if size_class == "huge" else 6 if big else 30), "faults": []}
         if not fault_free:
             for _ in range(rnd.choice([0, 1, 1, 2, 3])):
                 f = gen_fault(rnd)
